@@ -118,10 +118,8 @@ Proof. mc_unfold. cbv zeta. lst; field. Qed.
 
 Lemma mountaincar_limits x v : MC.clip x v = GymMountainCar.limits x v.
 Proof.
-  mc_unfold. cbv zeta.
-  replace (- (12 / 10)) with (- (6 / 5)) by lra. replace (6 / 10) with (3 / 5) by lra.
-  set (vc := Rclip v _ _). set (xc := Rclip x _ _). clearbody vc xc.
-  unfold Rleb, Rltb, Reqb, b2R. rdec; cbn; lst; try lra; exfalso; lra.
+  (* by cases on every comparison: independent of how the source spells the clips (jnp.clip, minimum(maximum(..)), where) *)
+  mc_unfold. cbv zeta. unfold_cmp. rdec; cbn; lst; try lra; exfalso; lra.
 Qed.
 
 (* Gymnasium's discrete step = lerax's clip after one unit semi-implicit Euler step of lerax's field
@@ -247,6 +245,35 @@ Proof.
   - exists (- Int_part q)%Z. rewrite opp_IZR. ring.
 Qed.
 
+(* general floor-mod fact, for whatever offset / span expression the source uses *)
+Lemma fmod_spec a m : 0 < m -> 0 <= Rfmod a m < m /\ exists k : Z, Rfmod a m = a + IZR k * m.
+Proof.
+  intros Hm. unfold Rfmod. set (q := a / m).
+  destruct (base_Int_part q) as [H1 H2].
+  assert (Hq : a = q * m) by (unfold q; field; lra).
+  split.
+  - split; nra.
+  - exists (- Int_part q)%Z. rewrite opp_IZR. ring.
+Qed.
+
+Lemma list4_eq (a b c d a' b' c' d' : R) : a = a' -> b = b' -> c = c' -> d = d' -> [a; b; c; d] = [a'; b'; c'; d'].
+Proof. intros -> -> -> ->. reflexivity. Qed.
+
+(* min/max nests in any spelling (jnp.clip, minimum(maximum(..)), maximum(minimum(..))) *)
+Ltac minmax_solve :=
+  unfold Rclip, Rmin, Rmax; pose proof PI_RGT_0;
+  repeat match goal with |- context [Rle_dec ?a ?b] => destruct (Rle_dec a b) end; lra.
+
+(* r = (expression with one floor-mod of period 2 pi) is a representative of x in [-pi, pi] *)
+Ltac wrap_solve :=
+  unfold GymAcrobot.wrap_spec; pose proof PI_RGT_0 as Hpi;
+  match goal with |- context [Rfmod ?a ?m] =>
+    let H := fresh in
+    assert (H : 0 < m) by lra;
+    destruct (fmod_spec a m H) as [[? ?] [k Hk]];
+    split; [lra | exists k; rewrite Hk; ring]
+  end.
+
 Lemma acrobot_limits y0 y1 y2 y3 :
   exists r1 r2,
     AC.clip y0 y1 y2 y3 =
@@ -254,10 +281,10 @@ Lemma acrobot_limits y0 y1 y2 y3 :
                GymAcrobot.bound y3 (- GymAcrobot.MAX_VEL_2) GymAcrobot.MAX_VEL_2]
     /\ GymAcrobot.wrap_spec y0 r1 /\ GymAcrobot.wrap_spec y1 r2.
 Proof.
-  eexists; eexists. split; [ac_unfold; cbv zeta; unfold Rclip; reflexivity|].
-  unfold GymAcrobot.wrap_spec.
-  destruct (fmod_wrap y0) as [[? ?] ?]. destruct (fmod_wrap y1) as [[? ?] ?].
-  repeat split; try assumption; lra.
+  eexists; eexists. split; [|split].
+  - ac_unfold; cbv zeta. apply list4_eq; [reflexivity | reflexivity | first [reflexivity | minmax_solve] | first [reflexivity | minmax_solve]].
+  - cbv beta. wrap_solve.
+  - cbv beta. wrap_solve.
 Qed.
 
 Lemma acrobot_obs_bounds : AC.obs_low = GymAcrobot.obs_low /\ AC.obs_high = GymAcrobot.obs_high.
